@@ -14,6 +14,7 @@ When dest is a plain local the callee's return place is renamed to it directly, 
 tail-called helper stay visible as exit sites of F.
 """
 import copy
+import re
 
 # semantic primitives the rules refer to by name / role: kept as calls (never dissolved by inlining)
 KEEP_PREFIXES = ("utils::", "disclosure::")
@@ -302,6 +303,21 @@ def _thread_result(f, call, region, retloc, hname):
     blocks = f["blocks"]
     region = set(region)
     T = call["target"]
+    # outcome-preserving adaptors between the result and its dispatch (`helper().map_err(..)?`): Ok stays Ok / Some becomes Ok, Err stays Err / None becomes Err
+    chain = []
+    site_loc = retloc
+    for _ in range(4):
+        cb = blocks[T]
+        ct = cb["term"]
+        if ct["k"] == "call" and ct.get("name") in ("map_err", "ok_or", "ok_or_else", "or_else") and ct.get("resolved_crate") == "core" and ct.get("target") is not None \
+                and ct["args"] and not ct["dest"]["proj"] and not cb["cleanup"]:
+            a0 = ct["args"][0].get("move") or ct["args"][0].get("copy")
+            if a0 and not a0["proj"] and a0["local"] == retloc and not any(st.get("place", {}).get("local") == retloc for st in cb["stmts"]):
+                chain.append(T)
+                retloc = ct["dest"]["local"]
+                T = ct["target"]
+                continue
+        break
     # locate the dispatch: T: y = Try::branch(move ret) -> T2 ; T2: d = discriminant(y); switchInt(d)   |   T: d = discriminant(ret); switchInt(d)
     disp = None
     tb = blocks[T]
@@ -325,6 +341,7 @@ def _thread_result(f, call, region, retloc, hname):
     if disp is None:
         return
     kind, dblocks, sw_id = disp
+    dblocks = chain + dblocks
     sw = blocks[sw_id]["term"]
     is_result = retty.startswith("std::result::Result<")
     is_option = retty.startswith("std::option::Option<")
@@ -352,7 +369,7 @@ def _thread_result(f, call, region, retloc, hname):
             continue
         var = "none"
         for st in bl["stmts"]:
-            if st["k"] == "assign" and not st["place"]["proj"] and st["place"]["local"] == retloc:
+            if st["k"] == "assign" and not st["place"]["proj"] and st["place"]["local"] == site_loc:
                 rv = st["rv"]
                 a = rv.get("aggregate") if isinstance(rv, dict) else None
                 cb = ((rv.get("use") or {}).get("const") or {}).get("value") if isinstance(rv, dict) and isinstance(rv.get("use"), dict) else None
@@ -363,7 +380,7 @@ def _thread_result(f, call, region, retloc, hname):
                 else:
                     var = None
         tm = bl["term"]
-        if tm["k"] == "call" and not tm["dest"]["proj"] and tm["dest"]["local"] == retloc:
+        if tm["k"] == "call" and not tm["dest"]["proj"] and tm["dest"]["local"] == site_loc:
             var = "err" if (tm.get("callee") or "").endswith("FromResidual::from_residual") else None
         if var != "none":
             sites.append((bid, var))
@@ -463,6 +480,49 @@ def _new_block(f, stmts, term, tag):
     return n
 
 
+def _desugar_transpose(f, bid, pending):
+    """Option<Result<T, E>>::transpose: None => Ok(None), Some(Ok(v)) => Ok(Some(v)), Some(Err(e)) => Err(e)"""
+    b = f["blocks"][bid]
+    t = b["term"]
+    if t.get("self_adt") != "std::option::Option" or t.get("name") != "transpose" or t.get("resolved_crate") != "core" or len(t["args"]) != 1 or t.get("target") is None:
+        return False
+    line, dest, target = t.get("line"), t["dest"], t["target"]
+    O, R = "std::option::Option", "std::result::Result"
+    mk = lambda place, rv: {"k": "assign", "place": place, "rv": rv, "line": line, "exp": None, "synth": True}
+    pl = lambda l, proj=(): {"local": l, "proj": list(proj)}
+    fld = lambda adt, vname, vidx: [{"k": "downcast", "variant": vname, "idx": vidx}, {"k": "field", "idx": 0, "name": "0", "adt": adt}]
+    agg = lambda adt, vname, vidx, ops: {"aggregate": {"kind": "adt", "adt": adt, "variant": vname, "idx": vidx, "fields": ["0"] if ops else []}, "ops": ops}
+    goto_t = {"k": "goto", "target": target, "line": line, "exp": None}
+    sop = t["args"][0]
+    spl = sop.get("move")
+    pre = []
+    if spl and not spl["proj"]:
+        x = spl["local"]
+    else:
+        x = _new_local(f, t.get("self_ty") or O, "transpose-subject")
+        pre = [mk(pl(x), {"use": sop})]
+    d1 = _new_local(f, "isize", "transpose-discr")
+    d2 = _new_local(f, "isize", "transpose-discr2")
+    ga = t.get("gargs") or []
+    y = _new_local(f, ("std::result::Result<%s, %s>" % (ga[0], ga[1])) if len(ga) == 2 else "?", "transpose-inner")
+    n1 = _new_local(f, "?", "transpose-none")
+    v = _new_local(f, "?", "transpose-ok")
+    sv = _new_local(f, "?", "transpose-some")
+    e = _new_local(f, "?", "transpose-err")
+    b_none = _new_block(f, [mk(pl(n1), agg(O, "None", 0, [])), mk(dest, agg(R, "Ok", 0, [{"move": pl(n1)}]))], dict(goto_t), "transpose-none")
+    b_ok = _new_block(f, [mk(pl(v), {"use": {"move": pl(y, fld(R, "Ok", 0))}}), mk(pl(sv), agg(O, "Some", 1, [{"move": pl(v)}])), mk(dest, agg(R, "Ok", 0, [{"move": pl(sv)}]))],
+                      dict(goto_t), "transpose-ok")
+    b_err = _new_block(f, [mk(pl(e), {"use": {"move": pl(y, fld(R, "Err", 1))}}), mk(dest, agg(R, "Err", 1, [{"move": pl(e)}]))], dict(goto_t), "transpose-err")
+    b_some = _new_block(f, [mk(pl(y), {"use": {"move": pl(x, fld(O, "Some", 1))}}), mk(pl(d2), {"discriminant": pl(y)})],
+                        {"k": "switch", "discr": {"move": pl(d2)}, "targets": [[0, b_ok]], "otherwise": b_err, "line": line, "exp": "desugar:Combinator"}, "transpose-some")
+    b["stmts"] = list(b["stmts"]) + pre + [mk(pl(d1), {"discriminant": pl(x)})]
+    b["desugared_call"] = t
+    b["term"] = {"k": "switch", "discr": {"move": pl(d1)}, "targets": [[1, b_some]], "otherwise": b_none, "line": line, "exp": "desugar:Combinator"}
+    if not dest["proj"]:
+        pending.append((target, b_none, dest["local"], "transpose"))
+    return True
+
+
 def _desugar_combinator(views, f, bid, depth, stack, pending):
     """rewrite the combinator call that terminates block `bid` (see COMBINATORS); returns True when rewritten.
     `pending` collects (target, first new block, result local, label) for the later jump-threading pass."""
@@ -478,18 +538,21 @@ def _desugar_combinator(views, f, bid, depth, stack, pending):
     line = t.get("line")
     adt = key[0]
     dest, target = t["dest"], t["target"]
-    h = cname = cpl = None
+    h = cname = cpl = fnitem = None
     if cidx is not None:
         cop = t["args"][cidx]
         cpl = cop.get("move") or cop.get("copy")
-        if not cpl or cpl["proj"]:
+        if cpl is None and isinstance(cop.get("const"), dict) and cop["const"].get("fn"):
+            fnitem = cop["const"]  # `.map(Algorithm::from_str)`: the mapper is a function item, applied as an ordinary call
+        elif not cpl or cpl["proj"]:
             return False
-        cname = _closure_def_of(f, cpl["local"])
-        if cname is None or cname not in views.raw or cname in stack:
-            return False
-        h = views.get(cname, depth + 1, stack + (f.get("_name"),))
-        if len(h["locals"]) < 3 or h.get("arg_count") != 2 or len(f["blocks"]) + len(h["blocks"]) > MAX_VIEW_BLOCKS:
-            return False
+        else:
+            cname = _closure_def_of(f, cpl["local"])
+            if cname is None or cname not in views.raw or cname in stack:
+                return False
+            h = views.get(cname, depth + 1, stack + (f.get("_name"),))
+            if len(h["locals"]) < 3 or h.get("arg_count") != 2 or len(f["blocks"]) + len(h["blocks"]) > MAX_VIEW_BLOCKS:
+                return False
     mk = lambda place, rv: {"k": "assign", "place": place, "rv": rv, "line": line, "exp": None, "synth": True}
     pl = lambda l, proj=(): {"local": l, "proj": list(proj)}
     fld = lambda vname, vidx: [{"k": "downcast", "variant": vname, "idx": vidx}, {"k": "field", "idx": 0, "name": "0", "adt": adt}]
@@ -519,6 +582,29 @@ def _desugar_combinator(views, f, bid, depth, stack, pending):
     # success arm
     if ok_action == "payload":
         b_ok = _new_block(f, [mk(dest, {"use": {"move": pl(x, fld(okv, okd))}})], dict(goto_t), "combinator-payload")
+    elif fnitem is not None:
+        ga = t.get("gargs") or []
+        v = _new_local(f, ga[0] if ga else "?", "combinator-payload")
+        full = fnitem.get("fn_full") or fnitem["fn"]
+        m = re.match(r"^<(.*) as (.*)>::([A-Za-z_0-9]+)$", full)
+        if m:
+            fsty, ftrait, fname = m.group(1), m.group(2).split("<")[0], m.group(3)
+        else:
+            fsty, ftrait, fname = None, None, full.split("<")[0].rsplit("::", 1)[-1]
+            if "::" in full:
+                fsty = full.rsplit("::", 1)[0]
+        if ok_action == "apply-wrap":
+            r = _new_local(f, ga[1] if len(ga) > 1 else "?", "combinator-result")
+            b_join = _new_block(f, [mk(dest, agg(okv, okd, [{"move": pl(r)}]))], dict(goto_t), "combinator-wrap")
+            cdest, ctarget = pl(r), b_join
+        else:
+            cdest, ctarget = dest, target
+        local_fn = fnitem["fn"] in views.raw
+        call = {"k": "call", "callee": fnitem["fn"], "callee_full": full, "name": fname, "resolved": fnitem["fn"] if local_fn else full, "resolved_full": full,
+                "resolved_local": local_fn, "callee_local": local_fn, "args": [{"move": pl(v)}], "dest": cdest, "target": ctarget, "unwind": t.get("unwind"), "line": line,
+                "exp": None, "synth": True, "gargs": [], "trait": ftrait, "self_ty": fsty, "self_adt": (fsty or "").split("<")[0] or None,
+                "callee_crate": None, "resolved_crate": None, "instance_kind": "Item", "ret_never": False}
+        b_ok = _new_block(f, [mk(pl(v), {"use": {"move": pl(x, fld(okv, okd))}})], call, "combinator-apply")
     else:
         v = _new_local(f, h["locals"][2]["ty"], "combinator-payload")
         carg = t["args"][cidx]
@@ -541,7 +627,7 @@ def _desugar_combinator(views, f, bid, depth, stack, pending):
     b["stmts"] = list(b["stmts"]) + pre_subject + [mk(pl(d), {"discriminant": pl(x)})]
     b["desugared_call"] = t
     b["term"] = {"k": "switch", "discr": {"move": pl(d)}, "targets": [[okd, b_ok]], "otherwise": b_fail, "line": line, "exp": "desugar:Combinator"}
-    if ok_action != "payload":
+    if ok_action != "payload" and h is not None:
         _splice(f, b_ok, h, cname, thread=False)
     if not dest["proj"]:
         pending.append((target, b_fail, dest["local"], cname or "combinator"))
@@ -819,6 +905,11 @@ class Views:
                 if tt["k"] == "call" and (tt.get("self_adt"), tt.get("name")) in COMBINATORS and not f["blocks"][bid]["cleanup"]:
                     try:
                         _desugar_combinator(self, f, bid, depth, stack, pending)
+                    except Exception:
+                        pass
+                elif tt["k"] == "call" and tt.get("name") == "transpose" and not f["blocks"][bid]["cleanup"]:
+                    try:
+                        _desugar_transpose(f, bid, pending)
                     except Exception:
                         pass
             for bid in own_ids:
